@@ -236,6 +236,15 @@ def sys_qobjs(s, fmt="csr"):
     return Hq, Cq
 
 
+def exact_rho(s):
+    """exact stationary state of a generated system (entries of H, c are
+    half-integers, so 8*L is a Gaussian-integer matrix); None if not unique"""
+    H, C = sys_arrays(s)
+    L8 = 8 * liouvillian_np(H, C)
+    assert is_int_array(L8)
+    return exact_steady(np.round(L8))
+
+
 def liouvillian_np(H, C):
     """independent formula (row-major kron, column stacking):
     vec(A X B) = (B^T kron A) vec X"""
@@ -608,8 +617,8 @@ def oracle_configs(quick, rng):
              ("svd", None, {}),
              ("power", None, {}), ("power", "solve", {}), ("power", "spsolve", {"use_rcm": True}),
              ("power", None, {"use_wbm": True}), ("power-gmres", None, {"use_precond": True}),
-             ("power", "spsolve", {"power_eps": 1e-10, "use_rcm": True}),
-             ("power", None, {"power_eps": 1e-10, "sparse": True, "use_wbm": True}),
+             ("power", "spsolve", {"power_eps": 1e-10, "power_tol": 1e-8, "use_rcm": True}),
+             ("power", None, {"power_eps": 1e-10, "power_tol": 1e-8, "sparse": True, "use_wbm": True}),
              ("propagator", None, {})]
     return cfgs
 
@@ -676,10 +685,7 @@ def oracle_system(ctx, s, cfgs, rng, stats, fmts):
     import qutip as qt
     H, C = sys_arrays(s)
     L = liouvillian_np(H, C)
-    L2 = 2 * L
-    if not is_int_array(L2):
-        return False
-    rho_ex = exact_steady(np.round(L2))
+    rho_ex = exact_rho(s)
     if rho_ex is None:
         stats["skipped_not_unique"] += 1
         return False
@@ -703,6 +709,9 @@ def oracle_system(ctx, s, cfgs, rng, stats, fmts):
         except Exception as e:
             msg = "%s: %s" % (type(e).__name__, str(e)[:120])
             itr = (solver in ITER_SOLVERS or method.endswith(tuple(ITER_SOLVERS)))
+            nr = stats.setdefault("no_result_by_cfg", {})
+            ck = "%s/%s/%s: %s" % (method, solver, ",".join(sorted(kw)), type(e).__name__)
+            nr[ck] = nr.get(ck, 0) + 1
             if itr and isinstance(e, (RuntimeError, ArithmeticError, Warning)):
                 # non-convergence / breakdown of a Krylov solver [NUM]
                 stats["iterative_no_convergence"] += 1
@@ -756,7 +765,7 @@ def oracle_mesolve(ctx, s, stats):
     import qutip as qt
     H, C = sys_arrays(s)
     L = liouvillian_np(H, C)
-    rho_ex = exact_steady(np.round(2 * L))
+    rho_ex = exact_rho(s)
     if rho_ex is None:
         return
     ev = np.linalg.eigvals(L)
@@ -786,7 +795,7 @@ def oracle_pinv(ctx, s, stats, rng):
     import qutip as qt
     H, C = sys_arrays(s)
     L = liouvillian_np(H, C)
-    rho_ex = exact_steady(np.round(2 * L))
+    rho_ex = exact_rho(s)
     if rho_ex is None:
         return
     d = s["dims"]
@@ -931,7 +940,7 @@ def witness_svd(ctx):
                       found_input=True)
     H, C = sys_arrays(s)
     L = liouvillian_np(H, C)
-    rho_ex = exact_steady(np.round(2 * L))
+    rho_ex = exact_rho(s)
     with warnings.catch_warnings():
         warnings.simplefilter("ignore")
         r = qt.steadystate(Hq, Cq, method="svd")
@@ -1011,9 +1020,42 @@ def witness_pinv_default(ctx):
 
 
 # ------------------------------------------------------------------------ run
+CORR_TO_ORACLE = {"corr:steadystate_direct": ("steadystate:direct", "steadystate:iterative"),
+                  "corr:steadystate_eigen": ("steadystate:eigen",),
+                  "corr:steadystate_svd": ("steadystate:svd",),
+                  "corr:steadystate_power": ("steadystate:power",),
+                  "corr:pseudo_inverse": ("pseudo_inverse",),
+                  "corr:heom.steady_state": ("heom.steady_state",)}
+
+
 def run(ctx):
     rng = random.Random(ctx.seed * 104729 + 18)
     quick = ctx.quick
+    deferred = []          # correspondence mismatches, reported after the oracle ran
+    real_violation = ctx.violation
+
+    def corr_violation(site, signature, what, detail, found_input=True):
+        if site in CORR_TO_ORACLE and not str(signature).startswith("raises:"):
+            deferred.append((site, signature, what, detail))
+            return None
+        return real_violation(site, signature, what, detail, found_input)
+
+    def flush_deferred():
+        # a correspondence broke: did the property's own oracle find a failing
+        # input at the same mechanism?  (unlisted violations only)
+        sites = set()
+        for pth in ctx.violations:
+            try:
+                sites.add(json.load(open(pth))["site"])
+            except Exception:
+                pass
+        for site, signature, what, detail in deferred:
+            hit = [x for x in sites if x.startswith(CORR_TO_ORACLE[site])]
+            detail = dict(detail, oracle_violations_at_same_mechanism=hit)
+            real_violation(site, signature, what + (
+                "; the oracle on real runs fails at %s" % hit if hit else
+                "; the oracle on real runs found no input violating the property"),
+                detail, found_input=bool(hit))
     ctx.cov["rule"] = (
         "correspondence case = (integer generator matrix, dims, storage format, solver name, "
         "weight, use_rcm/use_wbm with scripted permutations, scripted kernel answer); a case is "
@@ -1081,7 +1123,7 @@ def run(ctx):
         try:
             rec = impl_direct(c)
         except Exception as e:
-            ctx.violation("corr:steadystate_direct", "raises:" + type(e).__name__,
+            corr_violation("corr:steadystate_direct", "raises:" + type(e).__name__,
                           "steadystate(direct) with scripted solver raised %s: %s"
                           % (type(e).__name__, str(e)[:200]), {"case": c})
             rec = None
@@ -1099,7 +1141,7 @@ def run(ctx):
         try:
             nrecs.append(impl_null(c))
         except Exception as e:
-            ctx.violation("corr:steadystate_" + c["method"], "raises:" + type(e).__name__,
+            corr_violation("corr:steadystate_" + c["method"], "raises:" + type(e).__name__,
                           "steadystate(%s) with scripted kernel raised %s: %s"
                           % (c["method"], type(e).__name__, str(e)[:200]), {"case": c})
             nrecs.append(None)
@@ -1118,7 +1160,7 @@ def run(ctx):
         try:
             precs.append(impl_pinv(c))
         except Exception as e:
-            ctx.violation("corr:pseudo_inverse", "raises:" + type(e).__name__,
+            corr_violation("corr:pseudo_inverse", "raises:" + type(e).__name__,
                           "pseudo_inverse with scripted solver raised %s: %s"
                           % (type(e).__name__, str(e)[:200]), {"case": c})
             precs.append(None)
@@ -1136,7 +1178,7 @@ def run(ctx):
             hrecs.append(r)
             hexprs.append("gz_heom_L %d%%nat %d%%nat %s" % (c["n"], r["P"], gzmat(r["G"])))
         except Exception as e:
-            ctx.violation("corr:heom.steady_state", "raises:" + type(e).__name__,
+            corr_violation("corr:heom.steady_state", "raises:" + type(e).__name__,
                           "HEOMSolver.steady_state with scripted generator raised %s: %s"
                           % (type(e).__name__, str(e)[:200]), {"case": c})
             hrecs.append(None)
@@ -1177,7 +1219,7 @@ def run(ctx):
                 # x := the (exact) solution of what the model says the system
                 # is; check the implementation's system against it
                 sig = diffs[0]
-                ctx.violation("corr:steadystate_direct", sig,
+                corr_violation("corr:steadystate_direct", sig,
                               "model and _steadystate_direct disagree on: %s" % diffs,
                               {"case": c, "impl_L": str(rec["L"].tolist()),
                                "impl_b": str(rec["b"].tolist()),
@@ -1202,7 +1244,7 @@ def run(ctx):
                 model_raises = mres is None
                 model_it = None if mres is None else mres[1]
                 if model_raises != rec["raised"] or (not model_raises and model_it != rec["solves"]):
-                    ctx.violation("corr:steadystate_power", "loop-counter",
+                    corr_violation("corr:steadystate_power", "loop-counter",
                                   "power loop: model says %s, implementation %s after %d solves"
                                   % ("raise" if model_raises else "return after %s" % model_it,
                                      "raised" if rec["raised"] else "returned", rec["solves"]),
@@ -1216,7 +1258,7 @@ def run(ctx):
             if not exact:
                 continue
             if not np.array_equal(expected, rec["out"]) or rec["dims"] != [c["dims"], c["dims"]]:
-                ctx.violation("corr:steadystate_" + c["method"], "post-processing",
+                corr_violation("corr:steadystate_" + c["method"], "post-processing",
                               "model and _steadystate_%s disagree on the normalisation of a "
                               "scripted null vector" % c["method"],
                               {"case": c, "impl": str(rec["out"].tolist()),
@@ -1234,7 +1276,7 @@ def run(ctx):
             shift = 1j * (c["w"] if c["w"] else 1e-15)
             okA = np.array_equal(rec["A_minus_L"], shift * np.eye(n * n))
             if not np.array_equal(mR, rec["R"]) or not okA or rec["dims"] != [[c["dims"]] * 2] * 2:
-                ctx.violation("corr:pseudo_inverse", "projector-assembly",
+                corr_violation("corr:pseudo_inverse", "projector-assembly",
                               "model and pseudo_inverse disagree (Q, R = Q @ LIQ or the shift)",
                               {"case": c, "impl_R": str(rec["R"].tolist()), "model_R": str(mR.tolist()),
                                "shift_ok": bool(okA)})
@@ -1252,7 +1294,7 @@ def run(ctx):
             R0 = sol[: n * n].reshape((n, n), order="F")
             post_ok = np.array_equal(rec["rho2"], R0 + R0.conj().T)
             if not np.array_equal(mL, rec["L"]) or not b_ok or not post_ok:
-                ctx.violation("corr:heom.steady_state", "row-replacement",
+                corr_violation("corr:heom.steady_state", "row-replacement",
                               "model and HEOMSolver.steady_state disagree on the modified "
                               "generator / rhs / post-processing",
                               {"case": c, "b_ok": bool(b_ok), "post_ok": bool(post_ok)})
@@ -1268,6 +1310,7 @@ def run(ctx):
     witness_pinv_default(ctx)
     oracle_all(5 if quick else 40, rng)
     oracle_heom(ctx, stats, rng, quick)
+    flush_deferred()
     ctx.cov["oracle_stats"] = stats
     ctx.sample({"oracle_stats": dict(stats)})
     ctx.cov["explanation"] = (
@@ -1291,7 +1334,7 @@ def replay(ctx, payload):
         cfg = (d["cfg"][0], d["cfg"][1], d["cfg"][2])
         H, C = sys_arrays(s)
         L = liouvillian_np(H, C)
-        rho_ex = exact_steady(np.round(2 * L))
+        rho_ex = exact_rho(s)
         try:
             r = run_one(s, cfg, d.get("fmt", "csr"), d.get("input", "H"), d.get("seed", 0))
         except Exception as e:
